@@ -247,6 +247,168 @@ def run_rc_unit(res, rundir, unit, variants, tier, seed, known_preds, scale, tim
                 res.broken.append("%s/%s: exit %d without a failing case\n%s" % (driver, v.name, rc, out[-1500:]))
 
 
+# ---------------------------------------------------------------- libFuzzer engine
+FUZZ_CFLAGS = ["-g", "-O1", "-fno-omit-frame-pointer", "-fsanitize=fuzzer,address,undefined",
+               "-fsanitize=bounds,object-size,pointer-overflow,null,shift-exponent,vla-bound,return",
+               "-fno-sanitize=alignment,signed-integer-overflow,shift-base,function,vptr,enum,bool,float-cast-overflow,float-divide-by-zero,integer-divide-by-zero,nonnull-attribute,returns-nonnull-attribute,unreachable,builtin",
+               "-fno-sanitize-recover=all", "-w"]
+
+
+def build_fuzz_target(rundir, t):
+    """t: dict(name, src, extra_src=[...], cflags=[...]) ; C or C++ source under /verif/fuzz"""
+    src = os.path.join(VERIF, "fuzz", t["src"])
+    cxx = src.endswith(".cpp") or src.endswith(".cc")
+    objs = []
+    inc = ["-I" + os.path.join(REPO, "include"), "-I" + os.path.join(VERIF, "shims"), "-I" + os.path.join(VERIF, "fuzz"),
+           "-I" + os.path.join(VERIF, "refimpl")]
+    for i, es in enumerate(t.get("extra_src", [])):
+        esrc = os.path.join(REPO, es[5:]) if es.startswith("repo:") else os.path.join(VERIF, es)
+        obj = os.path.join(rundir, "fz.%s.%d.o" % (t["name"], i))
+        fl = [f.replace("fuzzer,address", "fuzzer-no-link,address") for f in FUZZ_CFLAGS]
+        r = sh(["clang"] + BASE_DEFS + inc + fl + t.get("cflags", []) + ["-c", esrc, "-o", obj])
+        if r.returncode != 0:
+            return None, "compile %s failed:\n%s" % (esrc, r.stdout[-3000:])
+        objs.append(obj)
+    exe = os.path.join(rundir, "fz.%s.exe" % t["name"])
+    cmd = (["clang++", "-std=gnu++17"] if cxx else ["clang"]) + BASE_DEFS + inc + FUZZ_CFLAGS + t.get("cflags", []) + [src] + objs \
+        + t.get("libs", []) + ["-o", exe]
+    r = sh(cmd)
+    if r.returncode != 0:
+        return None, "build of fuzz target %s failed:\n%s" % (t["name"], r.stdout[-3000:])
+    return exe, ""
+
+
+def run_lf_unit(res, rundir, unit, tier, seed, known_preds, scale):
+    """unit: dict(kind='lf', targets=[dict(name, src, extra_src, cflags, runs={'quick':N,'thorough':N}, max_len, dict, jobs={'quick':k,...})])"""
+    targets = unit["targets"]
+    exes = {}
+    with cf.ThreadPoolExecutor(max_workers=NCPU) as ex:
+        for t, (exe, err) in zip(targets, ex.map(lambda t: build_fuzz_target(rundir, t), targets)):
+            if exe is None:
+                res.broken.append(err)
+            else:
+                exes[t["name"]] = exe
+    env = dict(os.environ)
+    env["ASAN_OPTIONS"] = "detect_leaks=0:abort_on_error=0:allocator_may_return_null=1:detect_stack_use_after_return=1"
+    env["UBSAN_OPTIONS"] = "print_stacktrace=1:halt_on_error=1"
+    env["VERIF_KNOWN"] = ",".join(sorted(known_preds))
+    jobs = []
+    for t in targets:
+        if t["name"] not in exes:
+            continue
+        # replay tier
+        saved = sorted(glob.glob(os.path.join(VERIF, "replays", res.prop, "fuzz-" + t["name"], "*")))
+        saved = [p for p in saved if os.path.isfile(p)]
+        for i in range(0, len(saved), 50):
+            chunk = saved[i:i + 50]
+            r = sh([exes[t["name"]], "-timeout=20"] + chunk, env=env)
+            if r.returncode != 0:
+                # find which one
+                for pth in chunk:
+                    r1 = sh([exes[t["name"]], "-timeout=20", pth], env=env)
+                    if r1.returncode != 0:
+                        res.violations.append((pth, "fuzz target %s: saved input fails: %s" % (t["name"], r1.stdout[-700:])))
+        k = t.get("jobs", {}).get(tier, 1 if tier == "quick" else 4)
+        for j in range(k):
+            jobs.append((t, j))
+    # known findings for fuzz targets: replay stored input with the exclusion off
+    for kf in load_known():
+        if kf.get("property") != res.prop or kf.get("status") != "known" or not kf.get("fuzz_target"):
+            continue
+        if kf["fuzz_target"] not in exes:
+            continue
+        e2 = dict(env)
+        e2["VERIF_KNOWN"] = ""
+        r = sh([exes[kf["fuzz_target"]], "-timeout=20", os.path.join(VERIF, kf["replay"])], env=e2)
+        if r.returncode != 0:
+            res.known_lines.append("KNOWN-FINDING: property=%s %s" % (res.prop, kf["what"]))
+        else:
+            res.notes.append({"known_finding_not_reproduced": kf.get("id")})
+
+    def campaign(job):
+        t, j = job
+        name = t["name"]
+        cdir = os.path.join(rundir, "corpus-%s-%d" % (name, j))
+        adir = os.path.join(rundir, "art-%s-%d" % (name, j)) + "/"
+        os.makedirs(cdir, exist_ok=True)
+        os.makedirs(adir, exist_ok=True)
+        seeds = os.path.join(VERIF, "corpus", res.prop, name)
+        # half of the jobs start from the empty corpus, half from the seed corpus (guidance: try both)
+        if os.path.isdir(seeds) and (j % 2 == 0):
+            for f in os.listdir(seeds):
+                shutil.copy(os.path.join(seeds, f), os.path.join(cdir, f))
+        runs = int(t.get("runs", {}).get(tier, 200000 if tier == "quick" else 5000000) * scale)
+        stats = os.path.join(rundir, "stats-%s-%d.json" % (name, j))
+        e = dict(env)
+        e["VERIF_FUZZ_STATS"] = stats
+        cmd = [exes[name], "-seed=%d" % (seed * 7919 + j + 1), "-runs=%d" % runs, "-timeout=%d" % t.get("timeout", 10),
+               "-max_len=%d" % t.get("max_len", 2048), "-artifact_prefix=" + adir, "-print_final_stats=1", "-rss_limit_mb=3000",
+               "-max_total_time=%d" % t.get("max_time", {}).get(tier, 300 if tier == "quick" else 3600)]
+        d = t.get("dict")
+        if d:
+            cmd.append("-dict=" + os.path.join(VERIF, "fuzz", d))
+        cmd.append(cdir)
+        t0 = time.time()
+        r = sh(cmd, env=e)
+        out = r.stdout
+        execs = 0
+        for line in out.splitlines():
+            if "stat::number_of_executed_units" in line:
+                execs = int(line.split(":")[-1].strip())
+        arts = sorted(glob.glob(adir + "*"))
+        ncorp = len(os.listdir(cdir))
+        samples = []
+        for f in sorted(os.listdir(cdir))[:2]:
+            with open(os.path.join(cdir, f), "rb") as fh:
+                samples.append(fh.read(96).hex())
+        st = None
+        if os.path.exists(stats):
+            try:
+                with open(stats) as fh:
+                    st = json.load(fh)
+            except Exception:
+                st = None
+        return dict(target=name, job=j, rc=r.returncode, execs=execs, corpus=ncorp, arts=arts, tail=out[-2500:], wall=time.time() - t0,
+                    samples=samples, stats=st)
+
+    agg = {}
+    with cf.ThreadPoolExecutor(max_workers=NCPU) as ex:
+        for c in ex.map(campaign, jobs):
+            a = agg.setdefault(c["target"], dict(target=c["target"], execs=0, distinct=0, samples=[], jobs=0, deep=0, labels={}))
+            a["execs"] += c["execs"]
+            a["distinct"] = max(a["distinct"], c["corpus"])
+            a["jobs"] += 1
+            if c["stats"]:
+                a["deep"] += c["stats"].get("deep", 0)
+                for l, n in c["stats"].get("labels", {}).items():
+                    a["labels"][l] = a["labels"].get(l, 0) + n
+            if len(a["samples"]) < 3:
+                a["samples"] += c["samples"][:1]
+            bad = [p for p in c["arts"] if os.path.basename(p).startswith(("crash-", "leak-"))]
+            noise = [p for p in c["arts"] if not os.path.basename(p).startswith(("crash-", "leak-"))]
+            tmo = [p for p in noise if os.path.basename(p).startswith("timeout-")]
+            for pth in tmo:
+                # "terminates" is part of C12/C13: a timeout counts only if it reproduces 3 times
+                n_rep = 0
+                for _ in range(3):
+                    r1 = sh([exes[c["target"]], "-timeout=%d" % (2 * 10), pth], env=env)
+                    if r1.returncode != 0:
+                        n_rep += 1
+                if n_rep == 3:
+                    bad.append(pth)
+                else:
+                    res.inconclusive.append("fuzz %s: timeout artifact did not reproduce 3/3" % c["target"])
+            for pth in bad:
+                d = os.path.join(VERIF, "replays", res.prop, "new")
+                os.makedirs(d, exist_ok=True)
+                dst = os.path.join(d, "fuzz-%s-%s" % (c["target"], os.path.basename(pth)))
+                shutil.copy(pth, dst)
+                res.violations.append((dst, "fuzz target %s: %s" % (c["target"], c["tail"][-900:])))
+            if c["rc"] != 0 and not bad and not tmo:
+                res.broken.append("fuzz %s job %d exit %d without artifact:\n%s" % (c["target"], c["job"], c["rc"], c["tail"][-1200:]))
+    res.fuzz += list(agg.values())
+
+
 def confirm_violations(res):
     """keep only distinct replay paths"""
     seen = set()
